@@ -212,7 +212,7 @@ def gen_basic(rng, op, malformed=False):
     raise KeyError(op)
 
 
-ZERO_D_INT_AXIS = False
+ZERO_D_INT_AXIS = True
 
 
 def enumerate_basic(rng, tier):
@@ -239,8 +239,8 @@ def enumerate_basic(rng, tier):
     for sh in shapes:
         nd = len(sh)
         dims = list(range(-nd - 1, nd + 1))
-        # PENDING MODEL UPDATE: sum / max / min of a 0-d tensor with dim 0 / -1 (accepted by NumPy, PyTorch and the code; the
-        # model still rejects it) — the inputs are skipped until the corrected model is in
+        # sum / max / min of a 0-d tensor with dim 0 / -1 are accepted by NumPy, PyTorch, the code and (since the correction) the
+        # model; the switch stays for bisecting
         rdims = [d for d in dims if ZERO_D_INT_AXIS or nd > 0 or d not in (0, -1)]
         for keep in (0, 1):
             for op in ('sum', 'mean'):
